@@ -409,10 +409,10 @@ class ExplorerRunner(SequentialRunner):
                 px = _np.float64(px)
         if op.get("kind", "limit") == "limit":
             o = Order(agent_id=agent.agent_id, market_id=market.market_id, is_buy=is_buy, kind=LIMIT_ORDER,
-                      volume=int(op["vol"]), price=px, ttl=ttl)
+                      volume=(_np.int64(op["vol"]) if op.get("typ") == "np" else int(op["vol"])), price=px, ttl=ttl)
         else:
             o = Order(agent_id=agent.agent_id, market_id=market.market_id, is_buy=is_buy, kind=MARKET_ORDER,
-                      volume=int(op["vol"]), ttl=ttl)
+                      volume=(_np.int64(op["vol"]) if op.get("typ") == "np" else int(op["vol"])), ttl=ttl)
         o = cloned(o, op.get("typ"))
         agent.mine.append(o)
         sim._trigger_event_before_order(order=o)
